@@ -15,7 +15,7 @@ import numpy as np
 
 import sim  # noqa: F401
 from sim import build
-from sim.core import attempt, deep_tier, exc_tag
+from sim.core import attempt, bulk_tier, deep_tier, exc_tag
 from sim.oracle import arrays_equal, first_diff, missed_tuple, snap, snap_diff
 
 PROPERTY = "C03"
@@ -47,17 +47,28 @@ ASSUMPTIONS = [
 # ----------------------------------------------------------------------------
 # generation
 # ----------------------------------------------------------------------------
-def gen_config(rng):
+def gen_config(rng, bulk=False):
     ndim = rng.choice([1, 1, 1, 2, 2, 3])
     fams = ["static", "static", "pairs", "numpy", "fixed", "fixed", "exp", "near"]
-    axes = [build.gen_axis(rng, max_bins=6 if ndim == 1 else (4 if ndim == 2 else 3), families=fams)
-            for _ in range(ndim)]
-    wkind = rng.choice(build.WEIGHT_KINDS)
+    if bulk:
+        # many bins: 20-300 in 1-D, up to 40 x 40, up to 12 x 12 x 12
+        hi = {1: rng.choice([40, 120, 300]), 2: rng.choice([12, 40]), 3: 12}[ndim]
+        axes = [build.gen_axis(rng, min_bins=max(2, hi // 3), max_bins=hi, families=fams, scaled=0.15)
+                for _ in range(ndim)]
+    else:
+        axes = [build.gen_axis(rng, max_bins=6 if ndim == 1 else (4 if ndim == 2 else 3), families=fams, scaled=0.08)
+                for _ in range(ndim)]
+    wkind = rng.choice(build.WEIGHT_KINDS + ["big", "big_i"] if rng.random() < 0.25 else build.WEIGHT_KINDS)
+    dtype = build.pick_dtype(rng, wkind)
+    if bulk and dtype in ("float16", "int16"):
+        dtype = "float32" if dtype == "float16" else "int32"  # thousands of entries: counts beyond 2048 / 32767
     return {
-        "hist": {"ndim": ndim, "axes": axes, "dtype": build.pick_dtype(rng, wkind),
+        "hist": {"ndim": ndim, "axes": axes, "dtype": dtype,
                  "keep_missed": rng.random() < 0.7},
         "weights": wkind,
         "exact": wkind != "float",
+        # sums of squared weights beyond 2**53 are exact only in integer bins
+        "exact_e2": wkind not in ("float", "big", "big_i"),
         # value type of the stream: float64 values, or values representable in float32 that are handed over
         # in single precision by some deliveries (numpy float32 scalars / arrays) and in double by others
         "vtype": rng.choice(["f64", "f64", "f64", "f32"]),
@@ -90,7 +101,7 @@ def is_nan_entry(e):
     return isinstance(v, float) and math.isnan(v)
 
 
-def gen_deliveries(rng, mode, idxs, entries, ndim, first_epoch, keep_missed):
+def gen_deliveries(rng, mode, idxs, entries, ndim, first_epoch, keep_missed, max_chunk=8):
     """Ops (without replica id) that deliver entry indices `idxs` to one replica."""
     conts = ["list", "ndarray", "tuple", "iter"] if ndim == 1 else ["list", "ndarray", "columns"]
     if mode == "batch":
@@ -112,7 +123,7 @@ def gen_deliveries(rng, mode, idxs, entries, ndim, first_epoch, keep_missed):
                 out.append({"op": "fill", "i": order[i], "how": how})
             i += 1
         else:
-            k = rng.randint(1, max(1, min(8, len(order) - i)))
+            k = rng.randint(1, max(1, min(max_chunk, len(order) - i)))
             out.append({"op": "fill_n", "idx": order[i:i + k], "cont": rng.choice(conts),
                         "dropna": rng.random() < 0.8, "fold": rng.random() < 0.2})
             i += k
@@ -125,16 +136,29 @@ def gen_deliveries(rng, mode, idxs, entries, ndim, first_epoch, keep_missed):
 
 
 def generate(rng, seed, part):
-    cfg = gen_config(rng)
+    bulk = bulk_tier(rng)
+    cfg = gen_config(rng, bulk)
     ndim = cfg["hist"]["ndim"]
     deep = deep_tier(rng)
     n = rng.choice([0, 1, 2, 3, 5, 8, 12, 20, 30])
     k = rng.randint(2, 4)
+    max_chunk = 8
     if deep:
         n = rng.choice([40, 80, 150, 200])
         k = rng.randint(3, 6)
+    if bulk:
+        n = rng.choice([300, 1000, 3000, 5000, 10000])
+        k = rng.randint(2, 3)
+        max_chunk = rng.choice([64, 500, 2500, 10000])
+        if cfg["weights"] == "big_i":
+            cfg["weights"] = "int"  # sums of thousands of squares of 2**26 leave the int64 range
+        cfg["bulk"] = True
     entries = gen_entries(rng, cfg, n)
     modes = ["batch"] + [rng.choice(["single", "chunks", "mixed", "batch"]) for _ in range(k - 1)]
+    if bulk:
+        # element-wise replicas of thousands of entries cost seconds: one at most, and only for the smallest size
+        modes = ["batch"] + [rng.choice(["chunks", "chunks", "batch", "mixed" if n <= 300 else "chunks"])
+                             for _ in range(k - 1)]
     rng.shuffle(modes)
     cfg["replicas"] = modes
     if cfg["vtype"] == "f32":
@@ -148,7 +172,7 @@ def generate(rng, seed, part):
         idxs = list(range(bounds[ep], bounds[ep + 1]))
         queues = []
         for r, mode in enumerate(modes):
-            dl = gen_deliveries(rng, mode, idxs, entries, ndim, ep == 0, cfg["hist"]["keep_missed"])
+            dl = gen_deliveries(rng, mode, idxs, entries, ndim, ep == 0, cfg["hist"]["keep_missed"], max_chunk)
             for d in dl:
                 d["r"] = r
                 if cfg["vtype"] == "f32" and d["op"] in ("fill", "fill_n") and rng.random() < 0.5:
@@ -182,6 +206,10 @@ def weight_scale(entries, idxs):
     return sum(abs(entries[i][1]) if entries[i][1] is not None else 1.0 for i in idxs) + 1.0
 
 
+def weight_scale2(entries, idxs):
+    return sum(float(entries[i][1]) ** 2 if entries[i][1] is not None else 1.0 for i in idxs) + 1.0
+
+
 def batch_data(entries, idxs, ndim, cont):
     vals = [entries[i][0] for i in idxs]
     ws = [entries[i][1] for i in idxs]
@@ -200,7 +228,8 @@ def batch_data(entries, idxs, ndim, cont):
             data = arr
     if weights is not None and (cont == "ndarray" or not len(weights)):
         # typed, so that an empty batch carries the stream's weight kind (numpy would call [] float)
-        all_int = all(isinstance(e[1], int) for e in entries if e[1] is not None)
+        # (weights beyond 2**31 travel as floats: their squares are in range, sums of them in int64 are not)
+        all_int = all(isinstance(e[1], int) and e[1] < 2 ** 31 for e in entries if e[1] is not None)
         weights = np.asarray(weights, dtype=np.int64 if all_int else np.float64)
     return data, weights
 
@@ -218,6 +247,7 @@ def execute(plan, ctx):
     ndim = hs["ndim"]
     entries = plan["entries"]
     exact = cfg["exact"]
+    exact_e2 = cfg.get("exact_e2", exact)
     # "consecutive" in the sense of the statement: every bin starts exactly where the previous one ends
     # (physt's own is_consecutive() is tolerance-based and calls bins with one-ulp gaps consecutive)
     def exactly_consecutive(spec):
@@ -292,7 +322,7 @@ def execute(plan, ctx):
                         ctx.violation("C03/replicas-agree", f"C03/replicas-disagree/frequencies/{base}",
                                       f"replicas {r0}({cfg['replicas'][r0]}) and {r1}({cfg['replicas'][r1]}) got the same "
                                       f"{len(bag)} entries but frequencies differ {first_diff(f0, f1)}")
-                    if not arrays_equal(e0, e1, exact=exact, scale=scale * 16):
+                    if not arrays_equal(e0, e1, exact=exact_e2, scale=max(scale * 16, weight_scale2(entries, bag))):
                         ctx.violation("C03/replicas-agree", f"C03/replicas-disagree/errors2/{base}",
                                       f"replicas {r0}/{r1} ({modes}) errors2 differ {first_diff(e0, e1)}")
                     for j, (a, b) in enumerate(zip(m0, m1)):
@@ -447,7 +477,7 @@ def execute(plan, ctx):
                 ctx.violation("C03/fill-delta", f"C03/fill-delta/frequencies/{hist_kind(hs)}/{cls}/km={hs['keep_missed']}",
                               f"fill({val!r}, w={w!r}) with find_bin={idx0!r}: frequencies changed unexpectedly, "
                               f"expected vs got {first_diff(f_exp, f_post)}")
-            if not arrays_equal(e_exp, e_post, exact=exact, scale=sc * 16):
+            if not arrays_equal(e_exp, e_post, exact=exact_e2, scale=max(sc * 16, float(ww) ** 2 + float(np.abs(e_pre).sum()))):
                 ctx.violation("C03/fill-delta", f"C03/fill-delta/errors2/{hist_kind(hs)}/{cls}/km={hs['keep_missed']}",
                               f"fill({val!r}, w={w!r}) with find_bin={idx0!r}: errors2 {first_diff(e_exp, e_post)}")
             if m_exp is not None and not arrays_equal(m_exp, m_post, exact=exact, scale=sc):
@@ -569,7 +599,14 @@ def simplify(plan):
         yield c
     for k, op in enumerate(plan.get("ops", [])):
         idx = op.get("idx")
-        if idx and len(idx) > 1:
+        if idx and len(idx) > 8:
+            for part in (idx[:len(idx) // 2], idx[len(idx) // 2:]):
+                c = copy.deepcopy(plan)
+                c["ops"][k]["idx"] = list(part)
+                yield c
+    for k, op in enumerate(plan.get("ops", [])):
+        idx = op.get("idx")
+        if idx and 1 < len(idx) <= 64:
             for j in range(len(idx)):
                 c = copy.deepcopy(plan)
                 del c["ops"][k]["idx"][j]
